@@ -13,6 +13,8 @@ struct Tr<'u> {
     notes: Vec<String>,
     /// opaque calls met in the function being translated: (callee, parameter name, type)
     opaque: Vec<(String, String, Ty)>,
+    /// the current request's `ignore_assign`
+    req_ignore_assign: Vec<String>,
 }
 
 fn norm(ts: impl ToTokens) -> String {
@@ -50,9 +52,37 @@ impl<'u> Tr<'u> {
                 }
                 Ok(Ty::Tuple(v))
             }
+            Type::Slice(sl) => Ok(Ty::List(Box::new(self.ty(&sl.elem, self_ty)?))),
+            Type::ImplTrait(it) => {
+                // `impl Iterator<Item = T> + '_`: the list of the items
+                for b in &it.bounds {
+                    if let syn::TypeParamBound::Trait(tb) = b {
+                        if let Some(seg) = tb.path.segments.last() {
+                            if seg.ident == "Iterator" || seg.ident == "IntoIterator" || seg.ident == "DoubleEndedIterator" || seg.ident == "ExactSizeIterator" {
+                                if let syn::PathArguments::AngleBracketed(a) = &seg.arguments {
+                                    for ga in &a.args {
+                                        if let syn::GenericArgument::AssocType(at) = ga {
+                                            if at.ident == "Item" {
+                                                return Ok(Ty::List(Box::new(self.ty(&at.ty, self_ty)?)));
+                                            }
+                                        }
+                                    }
+                                }
+                            }
+                        }
+                    }
+                }
+                self.err(t.span(), format!("unsupported type `{}`", norm(t)))
+            }
             Type::Path(p) if p.qself.is_none() => {
                 let seg = p.path.segments.last().unwrap();
                 let name = seg.ident.to_string();
+                if self.spec.omit_types.iter().any(|o| *o == name) {
+                    return Ok(Ty::Omitted);
+                }
+                if self.spec.tokens.iter().any(|o| *o == name) {
+                    return Ok(Ty::Token(name));
+                }
                 let targs: Vec<&Type> = match &seg.arguments {
                     syn::PathArguments::AngleBracketed(a) => a
                         .args
@@ -67,6 +97,13 @@ impl<'u> Tr<'u> {
                     "bool" => Ok(Ty::Bool),
                     "Duration" => Ok(Ty::Duration),
                     "Option" if targs.len() == 1 => Ok(Ty::Option(Box::new(self.ty(targs[0], self_ty)?))),
+                    "Vec" | "VecDeque" if targs.len() == 1 => Ok(Ty::List(Box::new(self.ty(targs[0], self_ty)?))),
+                    "BTreeMap" | "IndexMap" | "HashMap" if targs.len() == 2 => {
+                        let k = self.ty(targs[0], self_ty)?;
+                        let v = self.ty(targs[1], self_ty)?;
+                        Ok(Ty::List(Box::new(Ty::Tuple(vec![k, v]))))
+                    }
+                    "str" | "String" if self.spec.strings => Ok(Ty::Str),
                     "Result" if !targs.is_empty() => {
                         let a = self.ty(targs[0], self_ty)?;
                         let b = if targs.len() > 1 {
@@ -217,7 +254,8 @@ impl<'u> Tr<'u> {
         };
         self.cur_file = u.files[at.file].clone();
         let s = &at.item;
-        if s.generics.type_params().next().is_some() {
+        let view = self.spec.views.get(name).cloned();
+        if s.generics.type_params().next().is_some() && view.is_none() {
             return self.err(s.span(), format!("generic struct `{name}`"));
         }
         let named = match &s.fields {
@@ -225,10 +263,24 @@ impl<'u> Tr<'u> {
             _ => return self.err(s.span(), format!("struct `{name}` is not a struct with named fields")),
         };
         let mut fields = Vec::new();
-        let view = self.spec.views.get(name).cloned();
         if let Some(obs) = &view {
             for o in obs {
-                let t = self.observer_type(name, o, s.span())?;
+                // `path : Type`: the observer's type is declared (a method of an external type)
+                let (o, declared) = match o.split_once(" : ") {
+                    Some((a, b)) => (a.trim().to_owned(), Some(b.trim().to_owned())),
+                    None => (o.clone(), None),
+                };
+                let o = &o;
+                let t = match declared {
+                    Some(tn) => {
+                        let ty: Type = match syn::parse_str(&tn) {
+                            Ok(t) => t,
+                            Err(e) => return self.err(s.span(), format!("observer `{o}` of {name}: type `{tn}`: {e}")),
+                        };
+                        self.ty(&ty, Some(name))?
+                    }
+                    None => self.observer_type(name, o, s.span())?,
+                };
                 self.cur_file = u.files[at.file].clone();
                 let proj = format!("{name}_{}", o.replace("()", "").replace('.', "_"));
                 fields.push((o.clone(), proj, t));
@@ -389,6 +441,7 @@ impl<'u> Tr<'u> {
             Ty::Z => app("Z.eqb", vec![a, b]),
             Ty::Bool => app("Bool.eqb", vec![a, b]),
             Ty::Unit => raw("true"),
+            Ty::Str => app("String.eqb", vec![a, b]),
             Ty::Enum(n) => {
                 let f = self.ensure_eqb(n, sp)?;
                 app(&f, vec![a, b])
@@ -452,6 +505,8 @@ impl<'u> Tr<'u> {
             Ty::Bool => raw("false"),
             Ty::Unit | Ty::Never => raw("tt"),
             Ty::Option(_) => raw("None"),
+            Ty::List(_) => raw("nil"),
+            Ty::Omitted => raw("tt"),
             Ty::Enum(n) | Ty::Struct(n) => raw(self.ensure_default(n, sp)?),
             _ => return self.err(sp, format!("Default of {}", t.coq())),
         })
